@@ -272,6 +272,19 @@ class C02(Prop):
                 ops.append(mk('encstruct CoseEncrypt0 %s %s' % (self.ph_form(p), aad), planted=planted, k='struct'))
                 ops.append(mk('macstruct CoseMac %s %s %s' % (self.ph_form(p), aad, g.b()), planted=planted, k='struct'))
         return ops
+    def child_ops(self, tier):
+        """protected headers of 2^16 .. 2^21 bytes (a long key id): retained whole, re-encoded bit for bit, at the body and at a signer
+        (implementation only; the oracle is the input).  A buffer cap or a truncation only shows at such sizes."""
+        out = []
+        for n in (65535, 65536, 65537, (1 << 20) - 16, (1 << 20) + 4097, 1100011) + (((1 << 21) + 5, 3000001) if tier == 'thorough' else ()):
+            kid = bytes((i * 7 + 3) % 251 for i in range(n))
+            p = b'\xa1\x04' + refcbor.head(2, n) + kid
+            pb = refcbor.head(2, len(p)) + p
+            w1 = b'\x84' + pb + b'\xa0\x43abc\x41\x05'
+            w2 = b'\x84\x40\xa0\x43abc\x81\x83' + pb + b'\xa0\x41\x01'
+            out.append(mk('chain CoseSign1 b' + w1.hex(), k='big-prot', plen=len(p), head=p[:12].hex(), tail=p[-12:].hex(), wire_len=len(w1), timeout=120, gen='COSE_Sign1 with a protected header of %d bytes' % len(p)))
+            out.append(mk('chain CoseSign b' + w2.hex(), k='big-prot', plen=len(p), head=p[:12].hex(), tail=p[-12:].hex(), wire_len=len(w2), timeout=120, gen='COSE_Sign signer with a protected header of %d bytes' % len(p)))
+        return out
     EMPTY = '(hdr - (crit) - b b b (cs) (rest))'
     def ph_form(self, p): return '(ph b%s %s)' % (p.hex(), self.EMPTY)   # stored bytes; parsed view irrelevant for reuse
     def dec_form(self, kind, p):
@@ -280,6 +293,14 @@ class C02(Prop):
         if kind == 'enc0': return '(enc0 %s %s b09)' % (ph, self.EMPTY)
         if kind == 'mac0': return '(mac0 %s %s b01 b02)' % (ph, self.EMPTY)
     def impl_pred(self, o, impl):
+        m = o['meta']
+        if m.get('k') == 'big-prot':
+            if not impl.startswith('ok '): return 'a message with a %d-byte protected header was not accepted (%s)' % (m['plen'], impl[:40])
+            mm = re.search(r'\(ph b(%s[0-9a-f]*?%s) \(hdr' % (m['head'], m['tail']), impl)
+            if not mm or len(mm.group(1)) != 2 * m['plen']: return 'retained protected bytes are not the %d wire bytes (%s retained)' % (m['plen'], len(mm.group(1)) // 2 if mm else 'none')
+            enc = impl.rsplit(' ok b', 1)
+            if len(enc) != 2 or enc[1].strip() != o['op'].split(' b', 1)[1]: return 're-encoding a message with a %d-byte protected header does not give back the input' % m['plen']
+            return None
         pl = o['meta'].get('planted')
         if pl is None or not impl.startswith(('ok', '(called')): return None
         k = o['meta'].get('k')
@@ -319,6 +340,11 @@ class StructProp(Prop):
     def phs(self, g, r):
         x = r.random()
         if x < 0.03: return r.choice(self.UNSER), None      # repeats a label: serialising it fails, the structure functions refuse (panic)
+        if x < 0.06:
+            # many sibling counter signatures in a built header (informed-adversary round: `.take(16)` when emitting them)
+            n = r.choice([2, 15, 16, 17, 18, 24, 25, 40])
+            E = C02.EMPTY
+            return '(ph - (hdr - (crit) - b b b (cs%s) (rest)))' % ''.join(' (sig (ph - %s) %s b%02x)' % (E, E, i) for i in range(n)), None
         if x < 0.45:
             p = bytes.fromhex(r.choice(NONCANON_PH)) if r.random() < 0.5 else g.venc(g.header(2))
             if r.random() < 0.15: p = b''
